@@ -43,6 +43,11 @@ def gen_num(rng, depth):
         if r < 0.9:
             return ("num", rng.choice(NUM_LITS))
         return ("neglit", rng.choice([1, 2, 0.5]))
+    if rng.random() < 0.12:
+        # a chain with two literals behind a variable: x - 1 - 1 is (x - 1) - 1
+        op = rng.choice(["-", "-", "+", "*"])
+        c1, c2 = ("num", rng.choice([1, 2, 0.5, 3])), ("num", rng.choice([1, 2, 0.5, 4]))
+        return ("bin", op, ("bin", op, ("path", rng.choice(NUM_ATTRS)), c1), c2)
     op = rng.choice(["+", "-", "*", "/", "+", "-", "*"])
     l, r = gen_num(rng, depth - 1), gen_num(rng, depth - 1)
     if op == "*" and rng.random() < 0.12:
